@@ -2344,7 +2344,8 @@ SUBCHECKS.append(SubCheck("tolerance_args", check_tolerance_args, _tolarg_case, 
 # normal matrices of norm ~1e5 were rejected on rounding alone.  Every generated matrix used to have norm O(1).)
 @st.composite
 def _normal_scale_case(draw):
-    return {"n": draw(st.integers(2, 6)), "seed": draw(gen.SEED), "cplx": draw(st.booleans()), "scale": draw(st.sampled_from([1.0, 1e3, 1e5, 1e6]))  # not below 1: a tiny matrix is normal "within atol" by the library's own tolerance, "normal": draw(st.booleans())}
+    # scales not below 1: a tiny matrix is normal "within atol" by the library's own tolerance
+    return {"n": draw(st.integers(2, 6)), "seed": draw(gen.SEED), "cplx": draw(st.booleans()), "scale": draw(st.sampled_from([1.0, 1e3, 1e5, 1e6])), "normal": draw(st.booleans())}
 
 
 def check_normal_scale(case):
